@@ -163,8 +163,48 @@ pub fn record_seqnode(args: &[String]) -> anyhow::Result<()> {
             }
         }
     }
+    // ---- epilogue: a data import in the middle of a leader's id batch, ordinary writes after it, then a restart that
+    // rebuilds the state by log replay (no compaction in between) and more writes - the imported history entries are
+    // stamped from a reserved SECTION of ids (ConfigCmd::GetSequenceSection), the ordinary ones from the batch
+    let mut imported = false;
+    let alive = node.call(&json!({"op":"wait_leader","ms":20000})).map(|w| w["res"] == "ok").unwrap_or(false);
+    if alive {
+        let hist_event = |node: &mut NodeProc, out: &mut std::io::BufWriter<std::fs::File>, published: u64| -> anyhow::Result<()> {
+            let dump = node.call(&json!({"op":"dump"}))?;
+            let h = hist_ids(&dump["dump"]);
+            writeln!(out, "{}", json!({"event":"hist","ids":h.iter().map(|x| json!([x.0, x.1])).collect::<Vec<_>>(),"published":published}))?;
+            Ok(())
+        };
+        for i in 0..2 {
+            if node.call(&json!({"op":"cfg_publish","data_id":cks[i % 3],"value":format!("pre-import-{}-{}", seed, i)}))?["res"] == "ok" { published += 1; }
+        }
+        hist_event(&mut node, &mut out, published)?;
+        let ex = node.call(&json!({"op":"transfer_export"}))?;
+        if ex["res"] == "ok" {
+            let im = node.call(&json!({"op":"transfer_import","hex":ex["hex"],"ms":30000}))?;
+            writeln!(out, "{}", json!({"event":"import","res":im["res"]}))?;
+            if im["res"] == "ok" {
+                imported = true;
+                hist_event(&mut node, &mut out, published)?;
+                for i in 0..3 {
+                    if node.call(&json!({"op":"cfg_publish","data_id":cks[i % 3],"value":format!("post-import-{}-{}", seed, i)}))?["res"] == "ok" { published += 1; }
+                }
+                hist_event(&mut node, &mut out, published)?;
+                node.stop()?;
+                node = NodeProc::start(&d, 700)?;
+                let w = node.call(&json!({"op":"wait_leader","ms":30000}))?;
+                writeln!(out, "{}", json!({"event":"restart","leader":w["res"]}))?;
+                if w["res"] == "ok" {
+                    for i in 0..3 {
+                        if node.call(&json!({"op":"cfg_publish","data_id":cks[i % 3],"value":format!("post-restart-{}-{}", seed, i)}))?["res"] == "ok" { published += 1; }
+                    }
+                    hist_event(&mut node, &mut out, published)?;
+                }
+            }
+        }
+    }
     node.kill();
     out.flush()?;
-    println!("{}", json!({"kind":"summary","published":published,"restarts":done_restarts}));
+    println!("{}", json!({"kind":"summary","published":published,"restarts":done_restarts,"imported":imported}));
     Ok(())
 }
